@@ -24,6 +24,8 @@ pub fn mon() -> Mon {
 
 fn plan(cfg: &RunCfg) -> EncPlan {
     let mut p = EncPlan::new(&RESPONSE_FORMS);
+    // the body does not depend on where the packet goes: the destination is swept as the byte parameter it is
+    p.addr7 = false;
     p.random_per_form = cfg.pick(80_000, 5_000_000);
     p.param_sweep_reps = cfg.pick(24, 400) as u32;
     p.addr_sweep_reps = cfg.pick(4, 100) as u32;
